@@ -967,3 +967,95 @@ func ruleEmitCoversState(c *Ctx) {
 	c.check(metaInRange, "hook/meta-for-every-element", fn.Decl.Pos(), "'meta' is emitted inside a range over hook.Metas", "'meta' is not emitted for every element of hook.Metas")
 	c.check(argsAppended, "hook/message-args", fn.Decl.Pos(), "the hook's stored message arguments are appended unconditionally", "the hook's message arguments (the fence definition) are not appended unconditionally to the rewritten SETHOOK/SETCHAN")
 }
+
+func init() {
+	register(&Rule{ID: "R9.rewrite-sees-every-collection", Props: []string{"C09"}, Floor: 1,
+		Text: "the rewrite walks the keyspace in key order, a batch at a time, and releases the lock between batches; what changes meanwhile reaches the new log only as the commands captured in the shrink log, replayed on top of the snapshot. That is sound for commands that address a collection by the key it keeps. A handler of a logged command that moves an existing collection to another key (stores under one key a collection it read from the keyspace under another) can move it from ahead of the scan to behind it: the snapshot then holds it under neither key and the captured command finds nothing to move. Every such handler therefore runs only while no rewrite is in progress: the store is dominated by a test of Server.shrinking",
+		Run:  ruleRewriteSeesEveryCollection})
+}
+
+func ruleRewriteSeesEveryCollection(c *Ctx) {
+	hs := writeHandlers(c)
+	if hs == nil {
+		c.und("engine", 0, "write handlers not available")
+		return
+	}
+	cols := c.Field("internal/server", "Server", "cols")
+	shrinking := c.Field("internal/server", "Server", "shrinking")
+	if cols == nil || shrinking == nil {
+		c.und("anchors", 0, "Server.cols or Server.shrinking not found")
+		return
+	}
+	n, scanned := 0, 0
+	for _, h := range hs {
+		fi := c.FuncOf(h)
+		if fi == nil || fi.Decl.Body == nil {
+			continue
+		}
+		scanned++
+		info := fi.Info()
+		// locals that hold a collection read from the keyspace, with the key expression they were read under
+		readKey := map[types.Object]ast.Expr{}
+		ast.Inspect(fi.Decl.Body, func(x ast.Node) bool {
+			as, ok := x.(*ast.AssignStmt)
+			if !ok || len(as.Rhs) != 1 || len(as.Lhs) < 1 {
+				return true
+			}
+			call, ok := ast.Unparen(as.Rhs[0]).(*ast.CallExpr)
+			if !ok || len(call.Args) != 1 {
+				return true
+			}
+			se, ok := ast.Unparen(call.Fun).(*ast.SelectorExpr)
+			if !ok || se.Sel.Name != "Get" || selField(info, se.X) != cols {
+				return true
+			}
+			if id, ok := ast.Unparen(as.Lhs[0]).(*ast.Ident); ok && id.Name != "_" {
+				readKey[info.ObjectOf(id)] = call.Args[0]
+			}
+			return true
+		})
+		if len(readKey) == 0 {
+			continue
+		}
+		var fg *FlowGraph
+		ast.Inspect(fi.Decl.Body, func(x ast.Node) bool {
+			call, ok := x.(*ast.CallExpr)
+			if !ok || len(call.Args) != 2 {
+				return true
+			}
+			se, ok := ast.Unparen(call.Fun).(*ast.SelectorExpr)
+			if !ok || se.Sel.Name != "Set" || selField(info, se.X) != cols {
+				return true
+			}
+			vid, ok := ast.Unparen(call.Args[1]).(*ast.Ident)
+			if !ok {
+				return true
+			}
+			from, ok := readKey[info.ObjectOf(vid)]
+			if !ok || sameExpr(info, from, call.Args[0]) {
+				return true // created here, or stored back under the key it was read from
+			}
+			n++
+			key := funcName(h) + "→cols.Set(" + exprStr(call.Args[0]) + ", " + vid.Name + ")"
+			if fg == nil {
+				fg = newFlowGraph(info, fi.Decl.Body)
+			}
+			gated := false
+			if l := fg.LocOfOuter(call); l.Valid() {
+				for _, f := range fg.DominatingFacts(l) {
+					ast.Inspect(f.E, func(y ast.Node) bool {
+						if s, ok := y.(*ast.SelectorExpr); ok && selField(info, s) == shrinking {
+							gated = true
+						}
+						return true
+					})
+				}
+			}
+			c.check(gated, key, call.Pos(), "the move is made only under a test of Server.shrinking",
+				"the collection read under "+exprStr(from)+" is stored under "+exprStr(call.Args[0])+" whether or not a rewrite is running: moved from a key the batch scan has not reached to one it has passed, it is in neither the snapshot nor (as data) the shrink log, and the captured command is replayed on a snapshot where its source does not exist — the collection is served until the next restart and then gone")
+			return true
+		})
+	}
+	c.stat("write_handlers_scanned", scanned)
+	c.stat("collection_moves", n)
+}
